@@ -465,6 +465,12 @@ func (r *reader) parseMetadata(metaData simpleSection, repoMetaData simpleSectio
 		}
 	}
 
+	for _, r := range repos {
+		if r == nil {
+			return nil, &md, fmt.Errorf("repository metadata contains null")
+		}
+	}
+
 	if md.ID == "" {
 		if len(repos) == 0 {
 			return nil, nil, ErrEmptyShard
